@@ -145,6 +145,27 @@ func build(seed uint64, index int) lib.Case {
 	return c
 }
 
+type hugeT struct {
+	n   int
+	typ string
+}
+
+func hugeCase(seed uint64, h hugeT, notes map[string]any) lib.Case {
+	o := cfg.RunHuge(h.n, h.typ)
+	d := desc{Seed: seed, Index: -h.n, Features: []string{"huge-array", "abi-type:" + h.typ}, FeatStr: "huge-array", Detail: fmt.Sprintf("uint256[] of %d elements, abi_idx column type %q", h.n, h.typ)}
+	cs := lib.Case{Coq: "CNote", Kind: "huge-array", Nontrivial: true, OracleOK: true, Size: 10}
+	if len(o.Problems) > 0 {
+		cs.OracleOK = false
+		cs.OracleMsg = fmt.Sprintf("one log with a uint256[] of %d elements (abi_idx column type %q): %s", h.n, h.typ, strings.Join(o.Problems, "; "))
+		d.Failure = "huge-array"
+	}
+	if notes != nil {
+		notes[fmt.Sprintf("%d/%s", h.n, h.typ)] = map[string]any{"rows": o.Rows, "first": o.R1, "second": o.R2, "out_of_range": o.OutOfRange}
+	}
+	cs.Desc = d
+	return cs
+}
+
 func run(c lib.Cfg) error {
 	slog.SetDefault(slog.New(slog.NewTextHandler(io.Discard, nil)))
 	out := lib.NewOut("C16", c.Out, header, "run", 60)
@@ -161,6 +182,16 @@ func run(c lib.Cfg) error {
 		}
 		if err := json.Unmarshal(raw, &rep); err != nil {
 			return err
+		}
+		if rep.FailingInput != nil && rep.FailingInput.Desc.Index < 0 {
+			for _, f := range rep.FailingInput.Desc.Features {
+				if strings.HasPrefix(f, "abi-type:") {
+					cs := hugeCase(rep.FailingInput.Desc.Seed, hugeT{-rep.FailingInput.Desc.Index, strings.TrimPrefix(f, "abi-type:")}, nil)
+					out.Add(cs)
+					fmt.Printf("replayed huge array n=%d: oracle_ok=%v %s\n", -rep.FailingInput.Desc.Index, cs.OracleOK, cs.OracleMsg)
+				}
+			}
+			return out.Flush()
 		}
 		if rep.FailingInput != nil {
 			cs := build(rep.FailingInput.Desc.Seed, rep.FailingInput.Desc.Index)
@@ -185,6 +216,16 @@ func run(c lib.Cfg) error {
 		}
 		out.Add(cs)
 	}
+	// one log with a huge selected array: direct oracle only (the rows are not pushed through coqc)
+	huge := []hugeT{{32768, "int"}, {65537, "int"}, {65537, ""}}
+	if c.Thorough() {
+		huge = []hugeT{{32767, ""}, {32767, "int"}, {32768, ""}, {32768, "int"}, {65536, "int"}, {65537, "int"}, {65537, ""}, {70000, "int"}, {70000, "numeric"}}
+	}
+	hugeNotes := map[string]any{}
+	for _, h := range huge {
+		out.Add(hugeCase(c.Seed, h, hugeNotes))
+	}
+	out.Notes["huge_array"] = hugeNotes
 	out.Notes["features"] = feats
 	out.Notes["generator"] = "1-3 integrations (log/tx/trace shapes, indexed and non-indexed inputs, optional selected uint256[] array), own or shared tables (same declaration or different shape), shuffled columns, user-supplied identity columns (plain, column only, remapped), notification columns, user unique/index, dangling references, mixed-case names, pre-existing narrower tables with or without the unique index; 1-3 blocks with 1-3 transactions, 0-3 logs and 0-2 trace actions each"
 	return out.Flush()
